@@ -30,7 +30,11 @@ def main(argv):
         return 1
     from . import props
 
-    results = seedtool.run_checks(patch, sorted(props.CHECKS), "quick")
+    checks = sorted(props.CHECKS)
+    for a in argv[3:]:
+        if a.startswith("--checks="):
+            checks = a.split("=", 1)[1].split(",")
+    results = seedtool.run_checks(patch, checks, "quick")
     wall = results.pop("_wall_s", None)
     alarms = sorted(c for c, r in results.items() if isinstance(r, dict) and r.get("rc") == 1)
     broken = sorted(c for c, r in results.items() if isinstance(r, dict) and r.get("rc") not in (0, 1))
